@@ -22,6 +22,10 @@ package xtype
 //@     && (t.Func ==> t.FuncType != nil && t.Signature)
 //@ typeinv Type(t) = t.T != nil && TypeFieldsOK(t)
 
+// every field of *Type except the enum cache is fixed once TypeOf/applyTo/inStruct have built the object
+//@ immutable Type String T Interface InterfaceType Struct StructType Named NamedType Pointer PointerType PointerInner List ListFixed ListInner Map MapType MapKey MapValue Basic BasicType Signature SignatureType Func FuncType Chan ChanType
+//@ immutable JenID ParentPointer Code Variable
+
 //@ pred GoValueType(t types.Type) bool = dynIs[*types.Pointer](t) || dynIs[*types.Basic](t) || dynIs[*types.Map](t)
 //@     || dynIs[*types.Slice](t) || dynIs[*types.Array](t) || dynIs[*types.Named](t) || dynIs[*types.Struct](t)
 //@     || dynIs[*types.Interface](t) || dynIs[*types.Signature](t) || dynIs[*types.Chan](t) || dynIs[*types.TypeParam](t)
@@ -31,12 +35,19 @@ package xtype
 // TypeOf / applyTo establish the object invariant of *Type (they and inStruct are the only writers of its shape fields)
 //@ func TypeOf
 //@   props C03 C13
-//@   requires t != nil && (GoValueType(t) || dynIs[*types.Alias](t))
+//@   requires@C13 t != nil && (GoValueType(t) || dynIs[*types.Alias](t))
 //@   assigns nothing
 //@   ensures result != nil && isFresh(result)
 //@   ensures result.T == types.Unalias(t) && result.T != nil
 //@   ensures TypeFieldsOK(result)
 //@   ensures !result.Func
+//@   ensures dynIs[*types.Pointer](types.Unalias(t)) ==> result.Pointer && !result.Named
+//@   ensures dynIs[*types.Basic](types.Unalias(t)) ==> result.Basic && !result.Named
+//@   ensures dynIs[*types.Struct](types.Unalias(t)) ==> result.Struct && !result.Named
+//@   ensures dynIs[*types.Slice](types.Unalias(t)) ==> result.List && !result.ListFixed && !result.Named
+//@   ensures dynIs[*types.Array](types.Unalias(t)) ==> result.List && result.ListFixed && !result.Named
+//@   ensures dynIs[*types.Map](types.Unalias(t)) ==> result.Map && !result.Named
+//@   ensures dynIs[*types.Named](types.Unalias(t)) == result.Named
 
 //@ func applyTo
 //@   props C03 C13
@@ -45,18 +56,25 @@ package xtype
 //@   ensures TypeFieldsOK(rt)
 //@   ensures rt.T == old(rt.T) && rt.String == old(rt.String) && !rt.Func
 //@   ensures old(rt.Named) ==> rt.Named && rt.NamedType != nil
-//@   requires rt.Named ==> rt.NamedType != nil
+//@   requires@C13 rt.Named ==> rt.NamedType != nil
+//@   ensures dynIs[*types.Pointer](t) ==> rt.Pointer
+//@   ensures dynIs[*types.Basic](t) ==> rt.Basic
+//@   ensures dynIs[*types.Struct](t) ==> rt.Struct
+//@   ensures dynIs[*types.Slice](t) ==> rt.List && !rt.ListFixed
+//@   ensures dynIs[*types.Array](t) ==> rt.List && rt.ListFixed
+//@   ensures dynIs[*types.Map](t) ==> rt.Map
+//@   ensures rt.Named == (old(rt.Named) || dynIs[*types.Named](t))
 
 
 //@ func Accessible
 //@   props C01 C03
 //@   pure
-//@   requires obj != nil
+//@   requires@C13 obj != nil
 //@   ensures result == (obj.Exported() || obj.Pkg() == nil || obj.Pkg().Path() == outputPackagePath)
 
 //@ func Type.Enum
 //@   props C08
-//@   requires t != nil && cfg != nil
+//@   requires@C13 t != nil && cfg != nil
 //@   assigns t.enum
 //@   ensures result != nil
 //@   ensures !t.Named ==> !result.OK
@@ -64,7 +82,7 @@ package xtype
 
 //@ func loadEnum
 //@   props C08
-//@   requires cfg != nil && t != nil
+//@   requires@C13 cfg != nil && t != nil
 //@   assigns nothing
 //@   ensures result != nil
 
@@ -80,3 +98,90 @@ package xtype
 //@ func UsageChecker.Used
 //@   props C09
 //@   inline
+
+// ---- small constructors used by every rule ----
+//@ func VariableID
+//@   props C03
+//@   ensures result != nil && isFresh(result) && result.Code == code && result.Variable && result.ParentPointer == nil
+//@ func OtherID
+//@   props C03
+//@   ensures result != nil && isFresh(result) && result.Code == code && !result.Variable && result.ParentPointer == nil
+//@ func JenID.Pointer
+//@   props C03
+//@   requires@C13 j != nil && j.Code != nil
+//@   ensures result1 != nil && result1.Code != nil
+//@ func JenID.Deref
+//@   props C03
+//@   requires@C13 j != nil && j.Code != nil && source != nil && source.PointerInner != nil
+//@   ensures result != nil && result.Code != nil && result.ParentPointer == j
+//@ func Type.TypeAsJen
+//@   props C01
+//@   ensures result != nil
+//@ func Type.AsPointer
+//@   props C03
+//@   requires@C13 t != nil
+//@   assigns nothing
+//@   ensures result != nil && isFresh(result) && result.Pointer && result.PointerInner != nil
+
+//@ func Type.inStruct
+//@   props C03
+//@   requires@C13 t != nil && source != nil
+//@   assigns t.Func, t.FuncType
+//@   ensures result == t
+
+// ---- type rendering (C01): every helper returns a statement ----
+//@ func Type.AsPointerType
+//@   props C03
+//@   requires@C13 t != nil
+//@   ensures result != nil
+//@ func toCode
+//@   props C01 C18
+//@   ensures result != nil
+//@ func toCodeNamed
+//@   props C01 C18
+//@   ensures result != nil
+//@ func toCodeObj
+//@   props C01 C18
+//@   ensures result != nil
+//@ func toCodeStruct
+//@   props C01 C18
+//@   ensures result != nil
+//@ func toCodeInterface
+//@   props C01 C18
+//@   ensures result != nil
+//@ func toCodeSignature
+//@   props C01 C18
+//@   ensures result != nil
+//@ func toCodeFunc
+//@   props C01 C18
+//@   ensures result != nil
+//@ func toChan
+//@   props C01 C18
+//@   ensures result != nil
+//@ func toCodeBasic
+//@   props C01 C18
+//@   ensures result != nil
+
+//@ func SignatureOf
+//@   props C06
+//@   pure
+//@   requires@C13 source != nil && target != nil
+//@   ensures result == Signature{Source: source.String, Target: target.String}
+
+// ---- C03/C05: field lookup: a *NoMatchError is returned exactly when no candidate was found;
+// ---- several candidates on the winning tier are a different (ambiguity) error ----
+//@ func ambiguousMatchError
+//@   props C03 C05
+//@   ensures result != nil && !dynIs[*NoMatchError](result)
+
+//@ func FindField
+//@   props C03 C05
+//@   ensures err != nil ==> result == nil
+//@   at return assert (result1 != nil && dynIs[*NoMatchError](result1)) == (len(matches) == 0)
+//@   at return assert (result1 == nil) == (len(matches) == 1)
+//@   at return assert len(exactMatches) > 0 ==> seqEq(matches, exactMatches)
+//@   at return assert len(exactMatches) == 0 ==> seqEq(matches, ignoreCaseMatches)
+
+//@ func FindExactField
+//@   props C03 C05
+//@   ensures (err == nil) == (result != nil)
